@@ -325,18 +325,27 @@ def rand_unitary(d, rng):
 
 
 def rand_povm(d, m, rng, rank=None):
+    """m PSD operators of the given rank summing to the identity.  The rank is
+    raised to ceil(d/m) when m*rank < d (otherwise no such POVM exists)."""
     rank = rank or d
-    while True:
+    rank = max(rank, -(-d // m))
+    for _ in range(200):
         As = []
         for _ in range(m):
             a = rng.standard_normal((d, rank)) + 1j * rng.standard_normal((d, rank))
             As.append(a @ dag(a))
         S = sum(As)
         w, v = np.linalg.eigh(S)
-        if w[0] > 1e-8:
+        if w[0] > 1e-6 * w[-1]:
             break
-    Sm = (v * w ** -0.5) @ dag(v)
-    return [herm_part(Sm @ A @ Sm) for A in As]
+    else:
+        raise RuntimeError("rand_povm: could not draw a well-conditioned POVM")
+    for _ in range(2):  # second pass removes the O(cond*eps) defect of the first
+        S = sum(As)
+        w, v = np.linalg.eigh(herm_part(S))
+        Sm = (v * w ** -0.5) @ dag(v)
+        As = [herm_part(Sm @ A @ Sm) for A in As]
+    return As
 
 
 def rand_kraus(d, r, rng):
